@@ -309,6 +309,7 @@ func runC07(r *fw.Run, p *fw.Program) {
 	c07Encoder(r, p, ref)
 	c07ScanRule(r, p)
 	c07Eval(r, p)
+	c07ModPaths(r, p)
 	// fromjson / json decode: exactly one value then EOF (borrowed from C16.text.eof: the same decoder serves fromjson)
 	{
 		sc := r.Scratch()
